@@ -20,11 +20,20 @@ def signature(msg, case_lines):
         return "illegal_vhdl:other"
     if what in ("check_mismatch_metavalue", "check_mismatch_uninitialised") and flag("tri") == "2":
         return "tristate:released_pin_recorded_as_X"
-    if (flag("undef") == "1" or flag("rundef") == "1") and flag("vhdl_has_metavalue") == "1" and what in ("check_mismatch_metavalue", "check_mismatch_value"):
-        # the reference run itself contained undefined values (undefined stimuli, multiplexer without an input for its selector value,
-        # uninitialised memory ...) and the VHDL side holds metavalues: the exported VHDL is more pessimistic about them than the
-        # reference simulator (CASE ... OTHERS => 'X', numeric_std), and `X = '1'` is FALSE where the reference knows the value
+    if (flag("undef") == "1" or flag("rundef") == "1") and what == "check_mismatch_metavalue":
+        # what=check_mismatch_metavalue: at EVERY failing CHECK the VHDL value of the checked pin itself holds a metavalue at a bit the
+        # reference defines, and no checked bit is defined on both sides with different values. Only then, and only when the reference run
+        # itself contained undefined values (undefined stimuli, multiplexer without an input for its selector value, uninitialised memory
+        # ...), is it the known X-pessimism of the exported VHDL (CASE ... OTHERS => 'X', numeric_std). A defined-versus-defined
+        # difference (what=check_mismatch_value) is never classed as this finding, whatever else the design contains.
         return "xprop:metavalue_where_reference_defined"
+    if what == "check_mismatch_value_through_metavalue" and (flag("undef") == "1" or flag("rundef") == "1"):
+        # defined on both sides but different, and at EVERY such CHECK every differing element of the checked pin is TAINTED in the Lean
+        # interpreter (Kernel.lean `taintExpr` / `texecStmt`): it was computed by a relational operator / to_integer / index with a metavalue
+        # operand, assigned (or kept) under an IF / CASE whose condition or selector was tainted, or derived from such values. The
+        # metavalue itself is the known X-pessimism; numeric_std's FALSE / `X = '1'` being FALSE turn it into a defined wrong value.
+        # An untainted defined-versus-defined difference is what=check_mismatch_value and stays a violation.
+        return "xprop:defined_through_metavalue_decision"
     if what == "vhdl_runtime_error" and "out of range" in msg and "index" in msg:
         return "vhdl_runtime_error:index_out_of_range"
     if what == "check_mismatch_uninitialised":
